@@ -1541,3 +1541,159 @@ func ruleC18Record(cx *Ctx) {
 		cx.R.Check(okA, rule, "(*cache).onAccess", "hands the node to policy.access", cx.P.Pos(oa.Pos()), "a drained read is recorded by the policy whenever a size bound is configured, under no other condition")
 	}
 }
+
+// ---------------------------------------------------------------------------------------------------------------
+// C06.handlernil: whether a deletion handler is configured decides nothing but the handler's invocation
+// ---------------------------------------------------------------------------------------------------------------
+
+func ruleC06HandlerNil(cx *Ctx) {
+	const rule = "C06.handlernil"
+	cx.R.Rule(rule, 2, "a test whether a deletion handler is configured guards only the construction of the event and the invocation of that handler (directly or through the executor): both outcomes of the test return the same values and perform the same other effects - what an operation returns or removes never depends on whether a listener is attached (the path summaries of all other rules describe the configured case)")
+	handlers := map[*types.Var]bool{}
+	for _, n := range []string{"onDeletion", "onAtomicDeletion"} {
+		if f := cx.needField(rule, "", "cache", n); f != nil {
+			handlers[f.Origin()] = true
+		}
+	}
+	exF := cx.P.Field("", "cache", "executor")
+	isHandlerLoad := func(v ssa.Value) bool {
+		f := fieldOf(v)
+		return f != nil && handlers[f.Origin()] && ownerName(fieldOwnerOfValue(v)) == "cache"
+	}
+	var allowedIn func(f *ssa.Function, blocks map[*ssa.BasicBlock]bool, depth int) (bool, string)
+	allowedIn = func(f *ssa.Function, blocks map[*ssa.BasicBlock]bool, depth int) (bool, string) {
+		for _, b := range f.Blocks {
+			if blocks != nil && !blocks[b] {
+				continue
+			}
+			for _, in := range b.Instrs {
+				switch x := in.(type) {
+				case *ssa.Alloc, *ssa.FieldAddr, *ssa.Field, *ssa.UnOp, *ssa.MakeInterface, *ssa.Convert, *ssa.ChangeType, *ssa.Jump, *ssa.Phi, *ssa.DebugRef, *ssa.Extract, *ssa.IndexAddr, *ssa.BinOp:
+				case *ssa.Return:
+					if blocks == nil && len(x.Results) != 0 {
+						return false, "the handler closure returns a value"
+					}
+				case *ssa.Store:
+					// only into locals (the event literal)
+					root := x.Addr
+					for {
+						if fa, ok := root.(*ssa.FieldAddr); ok {
+							root = fa.X
+							continue
+						}
+						break
+					}
+					if _, ok := root.(*ssa.Alloc); !ok {
+						return false, "stores into shared memory at " + cx.P.where(in)
+					}
+				case *ssa.MakeClosure:
+					cl, _ := x.Fn.(*ssa.Function)
+					if cl == nil || depth > 2 {
+						return false, "closure not resolved"
+					}
+					if ok, why := allowedIn(cl, nil, depth+1); !ok {
+						return false, why
+					}
+				case *ssa.Call:
+					cc := x.Common()
+					switch {
+					case cc.IsInvoke() && (nodeAccessors[cc.Method.Name()]):
+					case !cc.IsInvoke() && cc.StaticCallee() == nil && isHandlerLoad(cc.Value):
+					case !cc.IsInvoke() && cc.StaticCallee() == nil && exF != nil && sameField(fieldOf(cc.Value), exF):
+					case !cc.IsInvoke() && cc.StaticCallee() == nil:
+						if fv, isFV := stripLoad(cc.Value).(*ssa.FreeVar); isFV && depth > 0 {
+							_ = fv // a captured handler value
+						} else {
+							return false, "calls something other than the handler at " + cx.P.where(in)
+						}
+					default:
+						return false, "calls " + fmt.Sprint(cc.Value.Name()) + " at " + cx.P.where(in)
+					}
+				case *ssa.If:
+					return false, "branches inside the handler-only region at " + cx.P.where(in)
+				default:
+					return false, fmt.Sprintf("%T at %s", in, cx.P.where(in))
+				}
+			}
+		}
+		return true, ""
+	}
+	n := 0
+	for _, fn := range cx.P.FuncsOfPkg("") {
+		fn := fn
+		allInstrs(fn, func(in ssa.Instruction) {
+			iff, ok := in.(*ssa.If)
+			if !ok {
+				return
+			}
+			v, isNil, okN := nilCmp(iff.Cond)
+			if !okN || !isHandlerLoad(v) {
+				return
+			}
+			n++
+			nilSucc, setSucc := iff.Block().Succs[0], iff.Block().Succs[1]
+			if !isNil {
+				nilSucc, setSucc = setSucc, nilSucc
+			}
+			key := fmt.Sprintf("test #%d of %s", n, fname(fieldOf(v)))
+			// region: blocks reachable from the configured edge without entering the not-configured successor
+			region := map[*ssa.BasicBlock]bool{}
+			var walk func(b *ssa.BasicBlock)
+			walk = func(b *ssa.BasicBlock) {
+				if region[b] || b == nilSucc {
+					return
+				}
+				region[b] = true
+				for _, s := range b.Succs {
+					walk(s)
+				}
+			}
+			walk(setSucc)
+			joins := false
+			for b := range region {
+				for _, s := range b.Succs {
+					if s == nilSucc {
+						joins = true
+					}
+				}
+			}
+			okR, why := allowedIn(fn, region, 0)
+			if okR && !joins {
+				// guard-clause form: the not-configured successor must be a bare return of the same values as the region's returns
+				var nilRet *ssa.Return
+				if len(nilSucc.Instrs) == 1 {
+					nilRet, _ = nilSucc.Instrs[0].(*ssa.Return)
+				}
+				if nilRet == nil {
+					okR, why = false, "the not-configured branch does more than return"
+				} else {
+					for b := range region {
+						if r, isR := b.Instrs[len(b.Instrs)-1].(*ssa.Return); isR {
+							if len(r.Results) != len(nilRet.Results) {
+								okR, why = false, "the two branches return different values"
+							}
+							for i := range r.Results {
+								if i < len(nilRet.Results) && r.Results[i] != nilRet.Results[i] {
+									okR, why = false, "the two branches return different values"
+								}
+							}
+						}
+					}
+				}
+			}
+			cx.R.Check(okR, rule, funcName(fn), key, cx.P.where(in), "the configured branch only builds the event and invokes the handler; both branches continue alike ("+why+")")
+		})
+	}
+	cx.R.Check(n >= 2, rule, "cache", "handler tests found", "-", fmt.Sprintf("%d", n))
+}
+
+func fieldOwnerOfValue(v ssa.Value) types.Type {
+	v = stripLoad(v)
+	switch x := v.(type) {
+	case *ssa.FieldAddr:
+		return x.X.Type()
+	case *ssa.Field:
+		return x.X.Type()
+	}
+	return types.Typ[types.Invalid]
+}
